@@ -1,11 +1,11 @@
 CONSTANTS
-  MaxLen = 4
+  MaxLen = 2
   Classes = {"parrot", "shuffle", "randomized", "custom", "psk"}
   Servers = {"plain", "hrr", "hrrcookie"}
-  Modes = {"never", "before"}
-  Kinds = {"SetClientRandom", "SetSNI", "RemoveSNI", "EditSuites", "EditSessionId", "ExtInsert", "ExtRemove", "ExtALPN"}
-  SNIAll = FALSE
-  SkipVerify = FALSE
+  Modes = {"never", "before", "nosess", "both"}
+  Kinds = {"SetSNI", "ExtSNIField", "RemoveSNI"}
+  SNIAll = TRUE
+  SkipVerify = TRUE
   FixRemoveSNI = TRUE
 INIT Init
 NEXT Next
